@@ -149,7 +149,91 @@ fn branches_of(choice: &Spec) -> &[Spec] {
     }
 }
 
+/// A choice between a subcommand and a flag: everything right of the command name belongs to the
+/// command, so the flag typed behind it mixes the two alternatives and fails - also under `many`,
+/// where `--fast build` is two values in that order
+fn command_or_flag(case: &mut Case) {
+    let mut rng = case.rng(9);
+    let mut copts = OptSpec::plain(Spec::Seq(vec![Spec::Item(Item {
+        id: 11,
+        names: Names::long("release"),
+        help: None,
+        leaf: Leaf::Switch,
+    })]));
+    copts.descr = Some("D10-descr".into());
+    let cmd = Spec::Cmd(Box::new(CmdSpec {
+        id: 10,
+        names: vec!["build".to_string()],
+        shorts: vec![],
+        help: None,
+        adjacent: false,
+        opts: copts,
+    }));
+    let flag = Spec::Item(Item {
+        id: 20,
+        names: Names::long("fast"),
+        help: None,
+        leaf: Leaf::ReqFlag,
+    });
+    let alts = if rng.chance(1, 2) {
+        vec![cmd, flag]
+    } else {
+        vec![flag, cmd]
+    };
+    let wrap = rng.below(3);
+    let alt = Spec::Alt(alts);
+    let (choice, repeated) = match wrap {
+        0 => (alt, false),
+        1 => (Spec::wrap(W::Many { catch: false }, 30, alt), true),
+        _ => (Spec::wrap(W::Some_ { catch: false }, 30, alt), true),
+    };
+    let b = Bench::new(case, OptSpec::plain(Spec::Seq(vec![choice])));
+    let behind: Vec<Vec<u8>> = vec![b"build".to_vec(), b"--fast".to_vec()];
+    b.expect_stderr(
+        case,
+        &behind,
+        "mixed:flag-behind-command-name",
+        "mixed-alternatives:flag-behind-command-name",
+        "the flag of the other alternative written behind the command name",
+    );
+    let front: Vec<Vec<u8>> = vec![b"--fast".to_vec(), b"build".to_vec()];
+    let (out, _) = b.run(case, &front, "flag-in-front-of-command-name");
+    let ok = if repeated {
+        // two values, the flag's first
+        matches!(&out, crate::outcome::Outcome::Value(v) if {
+            let s = v.show();
+            match (s.find("f20"), s.find("f10")) {
+                (Some(a), Some(c)) => a < c,
+                _ => false,
+            }
+        })
+    } else {
+        matches!(out, crate::outcome::Outcome::Stderr { .. })
+    };
+    if !ok && !matches!(out, crate::outcome::Outcome::Panic(_) | crate::outcome::Outcome::FuelExhausted) {
+        case.rep.violation(
+            "alternative:flag-in-front-of-command-name",
+            "alternative",
+            case.index,
+            b.detail(
+                &front,
+                "flag-in-front-of-command-name",
+                if repeated {
+                    "two values in command-line order"
+                } else {
+                    "Stderr (two alternatives of a bare choice)"
+                },
+                &out,
+            ),
+        );
+    }
+}
+
 pub fn run_case(case: &mut Case) {
+    if case.index % 24 == 13 {
+        command_or_flag(case);
+        return;
+    }
     let mut rng = case.rng(0);
     let mut o = GenOpts::general();
     o.hidden = false;
